@@ -116,3 +116,12 @@ Proof. destruct l; [reflexivity|]. rewrite zlen_cons. pose proof (zlen_nonneg l)
 
 Lemma zfirstn_0 {A} (l : list A) n : n <= 0 -> zfirstn n l = [].
 Proof. intros. destruct l; simpl; [reflexivity|]. destruct (n <=? 0) eqn:E; [reflexivity|lia]. Qed.
+
+Lemma zskipn_zskipn {A} (l : list A) : forall a b, 0 <= a -> 0 <= b ->
+  zskipn a (zskipn b l) = zskipn (a + b) l.
+Proof.
+  induction l as [|x t IH]; intros a b Ha Hb; [reflexivity|].
+  simpl zskipn at 2. destruct (b <=? 0) eqn:E.
+  - replace (a + b) with a by lia. reflexivity.
+  - rewrite IH by lia. simpl. destruct (a + b <=? 0) eqn:E2; [lia|]. f_equal. lia.
+Qed.
